@@ -14,7 +14,7 @@ logging.getLogger('Inference').setLevel(logging.CRITICAL)
 REG = Registry(
     'C12',
     rule=('cases = (optimiser among opt[BOBYQA], opt[COBYLA], opt[NELDERMEAD], optimize, optimize_log, optimize_lbfgsb, '
-          'optimize_log_lbfgsb, optimize_log_fmin, optimize_log_powell, optimize_cons, optimize_grid; synthetic smooth model with 1-4 '
+          'optimize_log_lbfgsb, optimize_log_fmin, optimize_log_powell, optimize_cons, optimize_log_resid, optimize_grid; synthetic smooth model with 1-4 '
           'parameters; box bounds; start anywhere in the closed box (incl. on a bound); any subset of fixed parameters; multinom on/off; '
           'log_opt on/off; small evaluation budgets). Every model evaluation is recorded by a wrapper. Non-trivial = >=2 parameters and '
           '(a fixed parameter or a start within 1e-3 of a bound). Distinct by hash of the case.'),
@@ -22,7 +22,8 @@ REG = Registry(
                  'reported optimum is compared with the likelihood re-evaluated at the returned parameters (1e-8 relative)'])
 
 NLOPT_ALGS = ['LN_BOBYQA', 'LN_COBYLA', 'LN_NELDERMEAD']
-SCIPY = ['optimize', 'optimize_log', 'optimize_lbfgsb', 'optimize_log_lbfgsb', 'optimize_log_fmin', 'optimize_log_powell', 'optimize_cons']
+SCIPY = ['optimize', 'optimize_log', 'optimize_lbfgsb', 'optimize_log_lbfgsb', 'optimize_log_fmin', 'optimize_log_powell', 'optimize_cons',
+         'optimize_log_resid']
 
 
 @st.composite
@@ -81,6 +82,19 @@ def likelihood(model, params, data, multinom):
     return float(Inference.ll_multinom(fs, data) if multinom else Inference.ll(fs, data))
 
 
+def resid_target(case, model, data):
+    mid = [0.5 * (l + h) for l, h in zip(case['lo'], case['hi'])]
+    if case['fixed']:
+        mid = [f if f is not None else v for v, f in zip(mid, case['fixed'])]
+    return Inference.Anscombe_Poisson_residual(model.quiet(mid), data)
+
+
+def resid_objective(model, params, data):
+    r = model.target - Inference.Anscombe_Poisson_residual(model.quiet(params), data)
+    r = np.where(np.ma.getmaskarray(r), 0.0, np.ma.getdata(r))
+    return float(np.sum(r ** 2))
+
+
 def full_start(case):
     s = list(case['start'])
     if case['fixed']:
@@ -103,6 +117,12 @@ def run_optimiser(case, model, data):
         return np.asarray(xopt, float), float(ll_opt)
     f = getattr(Inference, which)
     kw = dict(lower_bound=lo, upper_bound=hi, multinom=case['multinom'], fixed_params=fixed, maxiter=max(2, budget // 5), full_output=True)
+    if which == 'optimize_log_resid':
+        # fits the model's Anscombe residuals to a target residual spectrum (here: those of the model at the centre of the box);
+        # the reported optimum is the sum of squared residual differences, returned as it is (smaller is better)
+        model.target = resid_target(case, model, data)
+        out = f(p0, data, model, model.target, pts, **kw)
+        return np.asarray(out[0], float), float(out[1])
     out = f(p0, data, model, pts, **kw)
     xopt, fopt = out[0], out[1]
     return np.asarray(xopt, float), -float(fopt)
@@ -159,8 +179,14 @@ def r1(case, rec):
             require(v == case['fixed'][i], '%s returned fixed parameter %d as %r, not %r' % (which, i, v, case['fixed'][i]), **sig)
         elif not (l * (1 - 1e-9) <= v <= h * (1 + 1e-9)):
             # a penalty-based wrapper that stops on an out-of-bounds trial point reports the penalty itself as the optimum
-            esc = dict(finding='penalty-escape') if (which in SCIPY and reported <= -1e7) else {}
+            esc = dict(finding='penalty-escape') if (which in SCIPY and (reported <= -1e7 or (which == 'optimize_log_resid' and reported >= 1e7))) else {}
             raise Violation('%s returned parameter %d = %r outside its bounds [%r, %r] (reported optimum %r)' % (which, i, v, l, h, reported), **dict(sig, **esc))
+    if which == 'optimize_log_resid':
+        obj = resid_objective(model, xopt, data)
+        require(abs(obj - reported) <= 1e-8 * (abs(reported) + 1), '%s reports objective %r but the squared residual difference at the returned parameters %r is %r'
+                % (which, reported, xopt.tolist(), obj), **sig)
+        require(list(case['lo']) == lo_before and list(case['hi']) == hi_before and list(case['start']) == p0_before, 'optimiser modified its list arguments')
+        return
     ll_at = likelihood(model, xopt, data, case['multinom'])
     require(abs(ll_at - reported) <= 1e-8 * (abs(reported) + 1), '%s reports optimum likelihood %r but the likelihood at the returned parameters %r is %r'
             % (which, reported, xopt.tolist(), ll_at), **sig)
@@ -176,6 +202,11 @@ def r1(case, rec):
 def grid_case(draw):
     c = draw(opt_case(optimisers=['optimize_grid']))
     c['npts'] = [draw(st.integers(2, 4)) for _ in range(c['k'])]
+    # the grid given with whole-number bounds and steps (index_exp[1:6:1]): scipy's brute then hands integer arrays to the objective
+    c['intgrid'] = draw(st.sampled_from([False, False, True]))
+    if c['intgrid']:
+        c['ilo'] = [draw(st.integers(1, 3)) for _ in range(c['k'])]
+        c['istep'] = [draw(st.integers(1, 2)) for _ in range(c['k'])]
     return c
 
 
@@ -189,13 +220,17 @@ def r2(case, rec):
         truth = [f if f is not None else t for t, f in zip(truth, fixed)]
     data = model.quiet(truth) * (2.5 if case['multinom'] else 1.0)
     free = [i for i in range(case['k']) if not fixed or fixed[i] is None]
-    grid = tuple(slice(case['lo'][i], case['hi'][i], complex(0, case['npts'][i])) for i in free)
-    rec.case(case, case['k'] >= 2, ['fixed' if fixed else 'nofixed'])
+    if case.get('intgrid'):
+        grid = tuple(slice(case['ilo'][i], case['ilo'][i] + case['istep'][i] * case['npts'][i], case['istep'][i]) for i in free)
+        axes = [np.arange(g.start, g.stop, g.step).astype(float) for g in grid]
+    else:
+        grid = tuple(slice(case['lo'][i], case['hi'][i], complex(0, case['npts'][i])) for i in free)
+        axes = [np.linspace(case['lo'][i], case['hi'][i], case['npts'][i]) for i in free]
+    rec.case(case, case['k'] >= 2, ['fixed' if fixed else 'nofixed', 'integer grid' if case.get('intgrid') else 'float grid'])
     with dadi_call('optimize_grid'):
         xopt, fopt, g, fout, thetas = Inference.optimize_grid(data, model, [20], grid, multinom=case['multinom'],
                                                               fixed_params=list(fixed) if fixed else None, full_output=True)
     xopt = np.atleast_1d(np.asarray(xopt, float))
-    axes = [np.linspace(case['lo'][i], case['hi'][i], case['npts'][i]) for i in free]
     for p in model.log:
         for j, i in enumerate(free):
             require(np.abs(axes[j] - p[i]).min() <= 1e-12 * abs(p[i]) + 1e-300, 'optimize_grid evaluated off-grid value %r for parameter %d' % (p[i], i))
@@ -219,7 +254,23 @@ def project_case(draw):
     fixed = [draw(st.one_of(st.none(), st.floats(-100, 100))) for _ in range(k)]
     if all(f is not None for f in fixed):
         fixed[draw(st.integers(0, k - 1))] = None
-    return dict(vals=vals, fixed=fixed, nofixed=draw(st.sampled_from([False, False, True])))
+    # the free values as a list of floats, a float array, a tuple, or whole numbers given as Python ints / an integer array
+    form = draw(st.sampled_from(['list', 'list', 'array', 'tuple', 'ints', 'int-array']))
+    if form in ('ints', 'int-array'):
+        vals = [float(draw(st.integers(-100, 100))) for _ in range(k)]
+    return dict(vals=vals, fixed=fixed, nofixed=draw(st.sampled_from([False, False, True])), form=form)
+
+
+def _as_form(vals, form):
+    if form == 'array':
+        return np.array(vals, dtype=float)
+    if form == 'tuple':
+        return tuple(vals)
+    if form == 'ints':
+        return [int(v) for v in vals]
+    if form == 'int-array':
+        return np.array([int(v) for v in vals])
+    return list(vals)
 
 
 @REG.relation('R3-project-params', strategy=project_case, quick=(2000, 2), thorough=(20000, 4))
@@ -227,10 +278,16 @@ def r3(case, rec):
     """_project_params_down / _project_params_up are mutually inverse around the fixed values."""
     vals = list(case['vals'])
     fixed = None if case['nofixed'] else list(case['fixed'])
-    rec.case(case, fixed is not None and any(f is not None for f in fixed), ['fixed' if fixed else 'nofixed'])
+    form = case.get('form', 'list')
+    rec.case(case, fixed is not None and any(f is not None for f in fixed), ['fixed' if fixed else 'nofixed', form])
     with dadi_call('_project_params_down/up'):
-        down = Inference._project_params_down(vals, fixed)
+        down = Inference._project_params_down(_as_form(vals, form), fixed)
         up = Inference._project_params_up(down, fixed)
+        if fixed:
+            # the free values handed to up() directly in the chosen form (what an optimiser or a grid search passes)
+            up2 = Inference._project_params_up(_as_form([v for v, f in zip(vals, fixed) if f is None], form), fixed)
+            require(list(np.asarray(up2, float)) == [f if f is not None else v for v, f in zip(vals, fixed)],
+                    'up(free values as %s) = %r (fixed %r)' % (form, list(np.asarray(up2, float)), fixed))
     exp = [f if (fixed and f is not None) else v for v, f in zip(vals, fixed or [None] * len(vals))]
     require(list(np.asarray(up, float)) == exp, 'up(down(p)) = %r, expected %r (fixed %r)' % (list(up), exp, fixed))
     if fixed:
